@@ -1359,7 +1359,15 @@ def inline_async(body, want, depth=2):
             polls = []
             for pb, pt in cur.calls_to(r"future::Future::poll$"):
                 o = cur.origin(pt["args"][0])
-                if any(c[4] == bi for c in origin_calls(o)):
+                # the future being polled must BE the coroutine built at bi (pinned / into_future'd), not merely derive from it
+                for _peel in range(8):
+                    if o[0] in ("ref", "deref"):
+                        o = o[1]
+                    elif o[0] == "call" and re.search(r"Pin::<Ptr>::(new_unchecked|new|as_mut)$|IntoFuture::into_future$|DerefMut::deref_mut$", o[1] or "") and o[3]:
+                        o = o[3][0]
+                    else:
+                        break
+                if o[0] == "call" and o[4] == bi:
                     polls.append((pb, pt))
             if len(polls) != 1 or polls[0][1].get("target") is None:
                 continue
